@@ -301,7 +301,7 @@ theorem issue_spec {st c s m d s1 id} (h : Good st c μ s) (hm : ∀ x ∈ m, x 
   · have : ({ s with script := .issue m d :: s.script, nIssued := s.nIssued + 1 } : St).acts
         = s.acts ++ [.issue m d] := by simp [St.acts]
     rw [this, wfS_append, h.wfs, wfS_single]
-    simp only [List.nil_append, Bool.true_and, actOK]
+    simp only [Bool.true_and, actOK]
     have h3 : m.all (· < c.world) = true := by simpa using hm
     rw [h3]
     cases hk : d.kind with
